@@ -40,6 +40,7 @@ class Harness:
         self.assume = []
         self.note = []
         self.features = None
+        self.cbmc_args = None
         self.replay = "playback"   # playback | trace (stubbed harnesses cannot be played back natively)
 
     def to_dict(self):
@@ -118,6 +119,8 @@ def _parse_file(path, modpath):
                     cur.replay = val
                 elif key == "features":
                     cur.features = val
+                elif key == "cbmc":
+                    cur.cbmc_args = val
                 elif key == "functions":
                     cur.functions += [x.strip() for x in val.split(",") if x.strip()]
                 elif key == "bounds":
